@@ -96,10 +96,23 @@ def cfg():
 
 
 PLACES = ("guard", "invariant", "invariant-urgent", "invariant-committed", "invariant-second-template",
-          "guard-into-branchpoint", "guard-out-of-branchpoint", "guard-with-select-and-sync")
+          "guard-into-branchpoint", "guard-out-of-branchpoint", "guard-with-select-and-sync", "guard-as-cdata", "invariant-as-split-cdata")
 
 
 def model(place, text):
+    if place in ("guard-as-cdata", "invariant-as-split-cdata"):
+        # the same label written as a CDATA section / as escaped text followed by a CDATA section
+        # (only the label: the declarations stay as they are, so that the formula is the only thing that can be lost)
+        doc = model("guard" if place == "guard-as-cdata" else "invariant", text)
+        plain = ">" + xmlgen._entities(text) + "</label>"
+        saved = xmlgen.ENCODING
+        xmlgen.ENCODING = "cdata" if place == "guard-as-cdata" else "cdata-split"
+        try:
+            enc = ">" + xmlgen.esc(text) + "</label>"
+        finally:
+            xmlgen.ENCODING = saved
+        assert doc.count(plain) == 1
+        return doc.replace(plain, enc, 1)
     if place == "guard":
         return xmlgen.simple_model(decl=DECL, guard=text)
     if place == "invariant":
@@ -141,7 +154,11 @@ def run_shard(shard):
         items = [bin_node(op, a, b) for b in sub]
     part = engine.Part()
     w = engine.worker("fast")
-    for place in (PLACES if depth <= 3 else PLACES[:2]):
+    places = PLACES if depth <= 3 else PLACES[:2]
+    if len(leaves) > 8 and engine.tier() != "thorough":
+        # the sweep over all 20 atom spellings: one placement of each kind in the quick tier
+        places = ("guard", "invariant", "invariant-urgent", "guard-into-branchpoint", "guard-as-cdata")
+    for place in places:
         docs = [model(place, it[0]) for it in items]
         res = xmlgen.run_docs(w, docs, want=["noinv"], batch=200)
         for it, r in zip(items, res):
